@@ -16,4 +16,9 @@ theorem revision_installed_before_leader_flag : leaderInstallsRevisionBeforeFlag
 leaving timestamp 0 in the lock description. -/
 theorem lock_update_reports_oracle_error : lockUpdateReportsOracleError = true := by decide
 
+/-- C15 / C18: `naiveTSO.Commit` only ever RAISES the committed revision and the deal cursor, each with a
+compare-and-swap loop (no plain store, no single unchecked swap): concurrent callers — follower read-revision syncs,
+the started-leading callback — cannot lower either counter nor lose the start revision. -/
+theorem tso_commit_only_raises : tsoCommitOnlyRaises = true := by decide
+
 end KB.OrderC15
